@@ -14,6 +14,7 @@ size_t ref_all_true_count; /* events executed when every predicate has held for 
 /* events identical in (timestamp, type, size, payload) but addressed to different LPs are not ordered: a correct executor has
  * dispatched between lo and hi events when it stops at the event after which every predicate has held */
 size_t ref_stop_lo, ref_stop_hi;
+bool ref_truncated; /* endless models: the reference stopped at a horizon */
 static struct lp_msg *ref_stop_ev;
 
 static struct topology *g_topo;
@@ -494,6 +495,8 @@ void model_dispatch(lp_id_t me, simtime_t now, unsigned type, const void *conten
 			budget = 1;
 		s->budget = budget;
 		s->limit = P.m_absorbing ? budget : budget + (uint32_t)P.m_extra;
+		if(P.m_endless)
+			s->limit = 0x7fffffffu;
 		if(P.m_rng && P.m_rng_init) {
 			s->init_draws[0] = dbits(Random());
 			s->init_draws[1] = RandomU64();
@@ -741,6 +744,7 @@ void reference_run(void)
 	ref_all_true_count = 0;
 	ref_stop_ev = NULL;
 	ref_stop_lo = ref_stop_hi = 0;
+	ref_truncated = false;
 
 	while(rq_head < rq_n) {
 		struct lp_msg *m = rq[rq_head++];
@@ -770,6 +774,11 @@ void reference_run(void)
 					ref_stop_lo += msg_is_before(rq[k], m);
 				ref_stop_hi = ref_total_events;
 			}
+		}
+		if(P.m_endless && ((ref_all_true && ref_total_events >= ref_all_true_count + 4000) || ref_total_events >= 60000)) {
+			/* the sequential execution never ends by itself: what lies beyond this horizon is not known to the oracles */
+			ref_truncated = true;
+			break;
 		}
 		if(ref_total_events > 200000) {
 			sim_note("MODEL-BUG: event population does not die out");
